@@ -7,7 +7,7 @@ CONSTANTS
  World = "p"
  Flag = FALSE
  Tps = 2
- Off = 0
+ Off = 1
  MaxTick = 8
  MaxSubs = 2
  MaxErr = 1
